@@ -420,7 +420,8 @@ def canon_impl(env, res):
     except Exception as e:  # noqa  (already reported by the predicate)
         return f"ok unreadable-result:{type(e).__name__}"
     items = sorted(((str(k), v) for k, v in obs.items()), key=lambda kv: kv[0])
-    return "ok ind=" + fmt_list([hexs(k) + ":" + fmt_list([fmt_float(a) for a in v]) for k, v in items], sep=";")
+    # an age of -0.0 (a small negative age rounded to 0 decimals) is the age 0: the sign of zero is not compared
+    return "ok ind=" + fmt_list([hexs(k) + ":" + fmt_list([fmt_float(a + 0.0) for a in v]) for k, v in items], sep=";")
 
 
 def canon_model(resp):
@@ -429,6 +430,8 @@ def canon_model(resp):
     parts = dict(p.split("=", 1) for p in resp.split(" ")[1:])
     inds = core.split_ne(parts["ind"], ";")
     inds = sorted(inds, key=lambda s: bytes.fromhex(s.split(":")[0]).decode("utf-8"))
+    neg_zero = "f9223372036854775808"
+    inds = [i.split(":")[0] + ":" + ",".join("f0" if t == neg_zero else t for t in i.split(":", 1)[1].split(",")) for i in inds]
     return "ok ind=" + fmt_list(inds, sep=";"), parts
 
 
